@@ -97,6 +97,17 @@ CHECKS = {
         "Trusts harness/fsmodel.py; no symlinks/dot-directories; a configured source_dirs never expands to the root alone; mixed-case suffixes not generated.",
         "DESIGN.md §3 C18",
     ),
+    "C19": (
+        "fault_enumeration",
+        "enumeration of option x channel cells and of configuration-file faults, differential against a reference run that gets the effective values by CLI only; Hypothesis for option pairs/triples",
+        "Every documented option is exercised in the cells file-only, both (two orders), CLI + silent file, with each configuration file name; "
+        "an observable battery (capabilities, messages, discovered files, diagnostics, outline, hover, completion, signature help, recursion "
+        "limit) and the option attributes must equal those of a server given the model's effective values on the command line. Faulty files "
+        "(missing named file, empty, truncated, garbage, non-object top level, wrong value types) must produce a message, leave the battery as "
+        "in the no-file run and let initialize complete. Each effectful option must change the battery (so a doubly ignored option is seen).",
+        "Reference model: effective = file value if named in the file else CLI value else default. disable_autoupdate on, debug_log off.",
+        "DESIGN.md §3 C19",
+    ),
 }
 
 NOT_YET = "check not built yet in this session (work in progress; see DESIGN.md §3 for the planned generator and oracle)"
